@@ -70,10 +70,16 @@ EXH_ALPHABET = ['L e0 F0', 'L i0', 'L e0 F0 i1', 'L e1 B1 i0', 'L e1 F1', 'L i0 
                 'K 0 i', 'K 3 i']
 
 
-def exhaustive(maxlen, ifaces='i'):
+# a second small alphabet: declaration orders, data and proto exports, revoking the permission, the
+# generator interfaces
+EXH_ALPHABET2 = ['L f0 e0 F0', 'L e0 D0', 'L i0', 'L e0 P0', 'L F0 e0 i1', 'X 0 1', 'R 1', 'R 0', 'K 0 g', 'K 3 l']
+
+
+def exhaustive(maxlen, alphabet=None):
     out = []
+    alphabet = alphabet or EXH_ALPHABET
     for n in range(1, maxlen + 1):
-        for t in itertools.product(EXH_ALPHABET, repeat=n):
+        for t in itertools.product(alphabet, repeat=n):
             if not t[-1].startswith('K') and not t[-1].startswith('L'):
                 continue  # a history ending in X/R shows nothing its prefix did not
             out.append(' ; '.join(t))
@@ -249,11 +255,11 @@ def run(chk):
     if os.path.exists(corpus):
         hs += [l.strip() for l in open(corpus) if l.strip() and not l.startswith('#')]
     ncorpus = len(hs)
-    ex = exhaustive(4 if quick else 6)
+    ex = exhaustive(4 if quick else 6) + exhaustive(3 if quick else 5, EXH_ALPHABET2)
     rng = chk.rng('hist')
     if quick:  # a seeded sample of the length-5/6 part of the exhaustive space
         for _ in range(12000):
-            t = [rng.choice(EXH_ALPHABET) for _ in range(rng.choice([5, 6]))]
+            t = [rng.choice(rng.choice([EXH_ALPHABET, EXH_ALPHABET2])) for _ in range(rng.choice([5, 6]))]
             t[-1] = rng.choice(['K 0 i', 'K 3 i', 'K 3 g', 'L i0 i1', 'L e0 F0'])
             ex.append(' ; '.join(t))
     hs += ex
@@ -274,8 +280,8 @@ def run(chk):
                       'history) and on the extracted Coq model; compared: error code of every step, resolver calls, and '
                       'after every link the address identity of every import/export/forward item of every module linked '
                       'so far plus the value obtained by calling/reading through each import; non-trivial = has a link '
-                      'and >= 3 ops; exhaustive part = all histories over %d fixed ops up to length %d' % (
-                          len(EXH_ALPHABET), 4 if quick else 6))
+                      'and >= 3 ops; exhaustive part = all histories over %d fixed ops up to length %d and over %d other ops '
+                      'up to length %d' % (len(EXH_ALPHABET), 4 if quick else 6, len(EXH_ALPHABET2), 3 if quick else 5))
     for h in hs[ncorpus + len(ex):][:4]:
         chk.sample(h)
     bad = correspond(impl, model, hs)
